@@ -87,6 +87,7 @@ struct Div {
         bool tie = false;
         i128 const exact = rounded_quotient(static_cast<i128>(a), static_cast<i128>(b), mode, &tie);
         if (!fits128<Res>(exact)) return o.discard("quotient-not-representable");
+        if ((Via == 3 || Via == 4) && !fits128<L>(exact)) return o.discard("quotient-does-not-fit-the-assigned-type");
         // failure classes the oracle can recognise without looking at CNL's answer
         i128 const half = static_cast<i128>(b) / 2;
         bool const opp = (a < 0) != (b < 0);
@@ -129,8 +130,19 @@ struct Div {
                 auto q = cnl::_impl::divide<Tag, Tag, L, R>{}(a, b);
                 static_assert(std::is_same_v<decltype(q), Res>);
                 got = q;
-            } else {
+            } else if constexpr (Via == 2) {
                 auto q = cnl::rounding_integer<L, Tag>{a} / b;
+                got = static_cast<Res>(cnl::_impl::to_rep(q));
+            } else if constexpr (Via == 3) {  // x /= y: x = x / y converted back to x's type (cases whose quotient does not fit L were discarded)
+                cnl::rounding_integer<L, Tag> x{a};
+                x /= cnl::rounding_integer<R, Tag>{b};
+                got = static_cast<Res>(cnl::_impl::to_rep(x));
+            } else if constexpr (Via == 4) {  // x /= built-in
+                cnl::rounding_integer<L, Tag> x{a};
+                x /= b;
+                got = static_cast<Res>(cnl::_impl::to_rep(x));
+            } else {  // built-in / wrapper
+                auto q = a / cnl::rounding_integer<R, Tag>{b};
                 got = static_cast<Res>(cnl::_impl::to_rep(q));
             }
         });
@@ -200,8 +212,8 @@ struct Div {
     }
     static void reg()
     {
-        char const* via = Via == 0 ? "op" : Via == 1 ? "divide_fn"
-                                                     : "op_builtin_rhs";
+        char const* via = Via == 0 ? "op" : Via == 1 ? "divide_fn" : Via == 2 ? "op_builtin_rhs" : Via == 3 ? "op_assign" : Via == 4 ? "op_assign_builtin_rhs"
+                                                                                                                                     : "op_builtin_lhs";
         add_site({std::string("C08|div|") + via + "|" + mode_of<Tag>::name + "|" + tname<L>::get() + "|" + tname<R>::get(), run,
                   enum_size(), run_enum});
     }
